@@ -268,7 +268,16 @@ func (a *jwtAuthenticator) getCacheTTL(key *jose.JSONWebKey) time.Duration {
 	// if it is shorter than the ttl of the certificate
 	certTTL := x.IfThenElseExec(len(key.Certificates) != 0,
 		func() time.Duration {
-			expiresIn := key.Certificates[0].NotAfter.Unix() - time.Now().Unix() - timeLeeway
+			// the key is valid as long as all the certificates of its chain are. Usually the
+			// certificate of the key expires first, but that is not necessarily the case
+			notAfter := key.Certificates[0].NotAfter
+			for _, cert := range key.Certificates[1:] {
+				if cert.NotAfter.Before(notAfter) {
+					notAfter = cert.NotAfter
+				}
+			}
+
+			expiresIn := notAfter.Unix() - time.Now().Unix() - timeLeeway
 
 			return x.IfThenElse(expiresIn > 0, time.Duration(expiresIn)*time.Second, 0)
 		},
